@@ -23,11 +23,13 @@ package backendpb
 // only "nothing lost" is judged; a repeated delivery of exactly that batch is
 // NOT judged.
 //
-// Records are made between refreshes only, so that "recorded at the time of
-// the upload" is determined; records racing with an upload are the business
-// of the billstat unit and of the wire part.  No verdict depends on timing: a
-// short client deadline is only used with handlers that never answer before
-// the client has given up.
+// Queries are recorded between refreshes and, by the server's handler as soon
+// as an RPC has arrived, while the upload is in flight (the caller is blocked
+// in Refresh meanwhile, so what the upload may carry is determined by the state
+// before the Refresh).  Start times are drawn independently of the recording
+// order; "most recent query" is the most recently RECORDED one.  No verdict
+// depends on timing: a short client deadline is only used with handlers that
+// never answer before the client has given up.
 
 import (
 	"context"
@@ -86,12 +88,19 @@ type vc16gScript struct {
 	k      int // messages to read before the fault, for the modes that use it
 	code   codes.Code
 	cancel context.CancelFunc
+
+	// mid are queries recorded by the handler as soon as the RPC has
+	// arrived, i.e. while the upload is in flight (the caller is blocked in
+	// Refresh meanwhile).
+	mid    []vc16Rec
+	record func(rc *vc16Rec)
 }
 
 // vc16gRPC is what the server saw of one RPC.
 type vc16gRPC struct {
 	mode       int
 	unscripted bool
+	midDone    bool
 	msgs       []*DeviceBillingStat
 	sawEOF     bool
 	commit     bool // the handler decided to commit
@@ -167,9 +176,14 @@ func (s *vc16gServer) SaveDevicesBillingStat(
 	}
 
 	rpc.mode = sc.mode
+	rpc.midDone = len(sc.mid) > 0
 	s.rpcs = append(s.rpcs, rpc)
 	s.started++
 	s.mu.Unlock()
+
+	for i := range sc.mid {
+		sc.record(&sc.mid[i])
+	}
 
 	defer func() {
 		s.mu.Lock()
@@ -318,11 +332,12 @@ func vc16gMsgStr(m *DeviceBillingStat) string {
 
 func TestVerifC16GRPC(t *testing.T) {
 	st := vstat.New("C16", "backendpb.grpc",
-		"rapid histories through RuntimeRecorder -> real backendpb.BillStat -> real grpc-go client -> in-process gRPC server on loopback; per round 0..4 records (never while an upload is in flight), then a Refresh for which the server's behaviour is drawn: ack with Empty | OK without a response message | status error before / in the middle of / after reading | read one message then OK | never answer (short client deadline) | commit then answer too late | caller cancels mid-stream | drop the connection before / in the middle / after committing; the server's own commit record is the oracle's 'delivered'; non-trivial = an upload holding device d that the server did not acknowledge normally, followed by a committed upload holding d; distinct by (devices, server behaviours)",
+		"rapid histories through RuntimeRecorder -> real backendpb.BillStat -> real grpc-go client -> in-process gRPC server on loopback; per round 0..4 records with start times drawn independently of the recording order, then a Refresh (0..2 further queries are recorded by the server's handler as soon as the RPC has arrived, i.e. while the upload is in flight) for which the server's behaviour is drawn: ack with Empty | OK without a response message | status error before / in the middle of / after reading | read one message then OK | never answer (short client deadline) | commit then answer too late | caller cancels mid-stream | drop the connection before / in the middle / after committing; the server's own commit record is the oracle's 'delivered'; non-trivial = an upload holding device d that the server did not acknowledge normally, followed by a committed upload holding d; distinct by (devices, server behaviours)",
 		"server-ok-without-response-message", "server-error-mid-stream", "committed-upload-not-resent",
 		"server-error-before", "server-error-after-reading", "server-partial-read-ok", "client-deadline-server-silent",
 		"server-committed-client-timed-out", "caller-cancelled-mid-stream", "connection-dropped-mid-stream",
-		"connection-dropped-after-commit", "uncommitted-then-committed")
+		"connection-dropped-after-commit", "uncommitted-then-committed",
+		"recorded-during-failed-upload-with-earlier-start-time", "recorded-during-failed-upload-with-equal-start-time", "recorded-during-failed-upload-with-later-start-time")
 	st.Finish(t)
 
 	l, err := net.Listen("tcp", "127.0.0.1:0")
@@ -424,6 +439,23 @@ func TestVerifC16GRPC(t *testing.T) {
 				timeout = shortTimeout
 			}
 
+			// The recorder takes its snapshot before the RPC exists, so what
+			// an upload of this Refresh may carry is determined by the
+			// state now; queries the handler records land in the next one.
+			lastBefore := make(map[agd.DeviceID]vc16Meta, len(w.last))
+			recBefore := make(map[agd.DeviceID]int64, len(w.recorded))
+			heldBefore := map[agd.DeviceID]bool{}
+			for d, m := range w.last {
+				lastBefore[d] = m
+				recBefore[d] = w.recorded[d]
+				heldBefore[d] = w.recorded[d] > w.delivered[d]
+			}
+
+			sc.record = func(rc *vc16Rec) {
+				w.record(rc)
+				w.log[len(w.log)-1] += " [by the server's handler, while the upload is in flight]"
+			}
+
 			rounds++
 			round := fmt.Sprintf("%d", rounds)
 			ctx, cancel := context.WithTimeout(context.Background(), timeout)
@@ -471,23 +503,23 @@ func TestVerifC16GRPC(t *testing.T) {
 					}
 
 					seen[d] = true
-					want, ok := w.last[d]
+					want, ok := lastBefore[d]
 					if !ok {
-						w.fatalf("upload names device %q, which was never recorded", d)
+						w.fatalf("upload names device %q, which had not been recorded when the upload started", d)
 					}
 
 					if m.Queries == 0 {
 						continue
 					}
 
-					if q, room := int64(m.Queries), w.recorded[d]-w.delivered[d]+allow[d]; q > room {
-						w.fatalf("double counting: the server has committed %d of the %d queries recorded for %s, and is now sent %d more (legitimately repeatable after a client/server disagreement: %d)",
-							w.delivered[d], w.recorded[d], d, q, allow[d])
+					if q, room := int64(m.Queries), recBefore[d]-w.delivered[d]+allow[d]; q > room {
+						w.fatalf("double counting: the server has committed %d of the %d queries recorded for %s when the upload started, and is now sent %d more (legitimately repeatable after a client/server disagreement: %d)",
+							w.delivered[d], recBefore[d], d, q, allow[d])
 					}
 
 					if !m.LastActivityTime.AsTime().Equal(want.Time) || m.ClientCountry != string(want.Ctry) ||
 						m.Asn != uint32(want.ASN) || m.Proto != uint32(want.Proto) {
-						w.fatalf("upload for %s reports %s, but its most recent query is %s", d, vc16gMsgStr(m), want)
+						w.fatalf("upload for %s reports %s, but its most recently recorded query when the upload started is %s", d, vc16gMsgStr(m), want)
 					}
 
 					batch[d] = int64(m.Queries)
@@ -503,9 +535,29 @@ func TestVerifC16GRPC(t *testing.T) {
 
 					// Devices the server did not get to read were held by
 					// the failed upload too.
-					for d := range w.recorded {
-						if w.recorded[d] > w.delivered[d] {
+					for d := range heldBefore {
+						if heldBefore[d] {
 							uncommitted[d] = true
+						}
+					}
+
+					// Coverage: a query of a held device recorded while this
+					// failed upload was in flight; its start time against
+					// the held one.
+					for i := range sc.mid {
+						d := vc16Devs[sc.mid[i].Dev]
+						if !rpc.midDone || !heldBefore[d] || cerr == nil {
+							continue
+						}
+
+						w.classes["recorded-during-failed-upload"] = true
+						switch held, now := lastBefore[d].Time, w.last[d].Time; {
+						case now.Before(held):
+							w.classes["recorded-during-failed-upload-with-earlier-start-time"] = true
+						case now.Equal(held):
+							w.classes["recorded-during-failed-upload-with-equal-start-time"] = true
+						default:
+							w.classes["recorded-during-failed-upload-with-later-start-time"] = true
 						}
 					}
 
@@ -539,9 +591,9 @@ func TestVerifC16GRPC(t *testing.T) {
 				// for the whole upload: what it did not read is delivered by
 				// the documented meaning, and is credited from the model.
 				if rpc.mode == vc16gPartialOK {
-					for d := range w.recorded {
-						if _, read := batch[d]; !read && !seen[d] && w.recorded[d] > w.delivered[d] {
-							batch[d] = w.recorded[d] - w.delivered[d]
+					for d := range recBefore {
+						if _, read := batch[d]; !read && !seen[d] && recBefore[d] > w.delivered[d] {
+							batch[d] = recBefore[d] - w.delivered[d]
 							w.classes["server-partial-read-ok"] = true
 						}
 					}
@@ -574,7 +626,7 @@ func TestVerifC16GRPC(t *testing.T) {
 					}
 				case cerr == nil:
 					for d := range batch {
-						if allow[d] == 0 {
+						if allow[d] == 0 && w.recorded[d] == w.delivered[d] {
 							agreed[d] = true
 						}
 					}
@@ -609,7 +661,16 @@ func TestVerifC16GRPC(t *testing.T) {
 					codes.ResourceExhausted}).Draw(t, "code"),
 			}
 
-			fmt.Fprintf(key, "/%s ", vc16gModeNames[sc.mode])
+			nMid := rapid.SampledFrom([]int{0, 1, 0, 2}).Draw(t, "nMid")
+			fmt.Fprintf(key, "/%s(", vc16gModeNames[sc.mode])
+			for j := 0; j < nMid; j++ {
+				rc := vc16DrawRec(t, nDev)
+				rc.DoneCtx = false
+				key.WriteByte(byte('a' + rc.Dev))
+				sc.mid = append(sc.mid, rc)
+			}
+
+			key.WriteString(") ")
 
 			// Devices whose last upload was committed with the client's
 			// agreement and that got no query since: sending them again
